@@ -28,7 +28,11 @@ Origins == {"str", "safe", "fn_str", "fn_safe", "slot_fn_str", "slot_fn_safe",
 MarkedSafe(o) == o \in {"safe", "fn_safe", "slot_fn_safe"}
 DeclaredEscaped(o) == o = "slot_escaped_fn_str"
 Hop(via, flag) == [via |-> via, flag |-> flag]
-WellFormed(hops) == Len(hops) >= 1 /\ hops[1].via # "fill"
+\* The first hop hands the content over from Python.  A template fill that is handed on from Python
+\* again ("fill" followed by "render"/"dynamic") is a question of slot resolution, not of escaping
+\* (the re-passed {% slot %} tag is then resolved in another component's context): not generated.
+WellFormed(hops) == /\ Len(hops) >= 1 /\ hops[1].via # "fill"
+                    /\ \A i, j \in 1..Len(hops) : i < j /\ hops[i].via = "fill" => hops[j].via = "fill"
 UserFlags(hops) == LET h == SelectSeq(hops, LAMBDA x : x.via # "fill") IN [i \in 1..Len(h) |-> h[i].flag]
 
 (* Number of times the content may be found escaped in the final output.    *)
@@ -58,10 +62,10 @@ Texts(k, content) == CASE k = 0 -> {content}
                        [] k = 1 -> {Escape(content), EscapeNQ(content)}
                        [] k = 2 -> {Escape(Escape(content)), EscapeNQ(EscapeNQ(content))}
 AdmittedTexts(o, hops, content) == UNION {Texts(k, content) : k \in Admitted(o, hops)}
-SlotConform(o, hops, content, out) == Canon(out) \in AdmittedTexts(o, hops, content)
+SlotConform(o, hops, content, out) == Canon(out) \in {Canon(t) : t \in AdmittedTexts(o, hops, content)}
 \* for diagnostics: how often the observed text is escaped (9: none of these)
 ObservedTimes(content, out) ==
-  LET ks == {k \in {0, 1, 2} : Canon(out) \in Texts(k, content)} IN
+  LET ks == {k \in {0, 1, 2} : Canon(out) \in {Canon(t) : t \in Texts(k, content)}} IN
   IF ks = {} THEN 9 ELSE CHOOSE k \in ks : \A j \in ks : k <= j
 
 (* ---- implementation-shaped wrapper machine (what _normalize_slot_fills   *)
